@@ -108,11 +108,10 @@ fn make_subjects(a: &assets::Asset, notes: &mut Vec<String>) -> Vec<Subject> {
             let inside = |pos: usize| c.ranges.iter().any(|r| pos >= r.0 && pos < r.0 + r.1);
             // content: try positions from the end backwards until the stand-alone read is Ok with failures
             let mut done = false;
-            for back in 1..valid.len().min(400) {
-                let pos = valid.len() - back;
-                if inside(pos) {
-                    continue;
-                }
+            // candidate positions: bytes outside the manifest container, from the end backwards, at most 80 tries
+            let outside: Vec<usize> = (0..valid.len()).rev().filter(|p| !inside(*p)).collect();
+            let stride = (outside.len() / 80).max(1);
+            for pos in outside.iter().step_by(stride).take(80).copied() {
                 let mut t = valid.clone();
                 t[pos] ^= 0x01;
                 let s = standalone(a.format, &t, true);
@@ -257,7 +256,7 @@ fn run_case(s: &Subject, rel: &'static str, twice: bool, source: &assets::Asset)
         Ok(Ok(st)) => st,
         Ok(Err(e)) => {
             let kind = report::err_kind(&e);
-            return fail(&format!("sign-error:{kind}"), format!("signing the parent failed: {e:?} (ingredient stand-alone state {}, failures {:?})", sa.state, sa.failures), counts, unjudged);
+            return fail(&format!("sign-error:{kind}"), format!("signing the parent failed: {e:?} (ingredient {} stand-alone state {} error {:?}, failures {:?})", s.asset, sa.state, sa.err, sa.failures), counts, unjudged);
         }
         Err(p) => return fail("sign-panic", format!("panic while signing the parent: {p}"), counts, unjudged),
     };
@@ -379,7 +378,8 @@ fn main() {
         assets_v.retain(|a| {
             let n = seen.entry(a.format).or_insert(0);
             *n += 1;
-            *n <= 2
+            // (tiny_plaintext.gif: an unsigned file whose manifest lookup ends in an error — directed case)
+            *n <= 2 || a.name == "tiny_plaintext.gif"
         });
     }
     assets_v.extend(assets::fixture_assets(run.tier.pick(70_000, 400_000)));
